@@ -34,13 +34,13 @@ ABSENT = ["zzz", "a.gb", "a.gbk", "c", "c.d.gb", "sub/f", "sub", "x", "x.gb", "n
 
 def bounds(tier):
     return dict(embedded="all items of ytk, ptk, cidar, ecoflex, plant", file_alphabet=ENTRIES, max_entries=4 if tier == "quick" else 6,
-                backends=["OSFS (real directory)", "MemoryFS"], extensions=["default", ["gb"], ["gbff"]], absent_keys=ABSENT,
+                backends=["OSFS (real directory)", "MemoryFS"], plasmid_content=dict(labels=sorted(LABELS), feature_arrangements=SHAPES, part_types=["YTKPart1", "YTKPart3"]), extensions=["default", ["gb"], ["gbff"]], absent_keys=ABSENT,
                 combined=dict(members=["A", "B (overlaps A with different items)", "A again", "C (larger, overlaps A and B)", "embedded PTK", "P1 (one local plasmid under a PTK id)", "empty"], ops=["<<", "add_registry"], depth=4))
 
 
 def goals(tier):
     return ["embedded-question-order", "embedded-items", "fs-supported-file", "fs-ignored-file", "fs-case-variant-extension", "fs-subdirectory", "fs-directory-named-like-a-plasmid",
-            "fs-dotted-stem", "fs-empty-directory", "fs-question-order", "combined-overlap-first-wins", "combined-small-before-large-overlap", "combined-repeated-member", "combined-closure-or-depth"]
+            "fs-dotted-stem", "fs-empty-directory", "fs-question-order", "fs-content-shapes", "combined-overlap-first-wins", "combined-small-before-large-overlap", "combined-repeated-member", "combined-closure-or-depth"]
 
 
 # ---------------------------------------------------------------------------------------------
@@ -187,6 +187,8 @@ def units(tier):
         nchunks = 1 if len(combos) < 50 else (8 if len(combos) < 1200 else 32)
         for c in range(nchunks):
             us.append(("fs", (size, c, nchunks)))
+    us.append(("content", 0))
+    us.append(("content", 1))
     us.append(("combined", None))
     return us
 
@@ -197,6 +199,8 @@ def run_unit(unit, st, tier):
         unit_embedded(st, arg)
     elif kind == "fs":
         unit_fs(st, *arg)
+    elif kind == "content":
+        unit_content(st, arg)
     else:
         unit_combined(st, tier)
 
@@ -249,6 +253,104 @@ def unit_embedded(st, name):
     st.outcomes["embedded-item"] += n
     st.goal("embedded-items", n)
     st.sample(dict(family="embedded", registry=name, items=n))
+
+
+# ---------------------------------------------------------------------------------------------
+# what a plasmid file may look like: every spelling of a resistance label, in every legal arrangement of features
+
+LABELS = {"KanR": "Kanamycin", "KnR": "Kanamycin", "CamR": "Chloramphenicol", "CmR": "Chloramphenicol", "AmpR": "Ampicillin",
+          "SmR": "Spectinomycin", "SpecR": "Spectinomycin"}
+SHAPES = ["single", "label-twice", "with-second-label", "after-unlabelled-features", "two-features-same-label", "minus-strand-join",
+          "label-also-in-note", "across-the-origin", "last-of-many"]
+
+
+def shaped_features(shape, L, n):
+    F = lambda a, b, s, t, q: SeqFeature(FeatureLocation(a, b, strand=s), type=t, qualifiers=q)
+    if shape == "single":
+        return [F(1, 5, 1, "CDS", {"label": [L]})]
+    if shape == "label-twice":
+        return [F(1, 5, 1, "CDS", {"label": [L, L]})]
+    if shape == "with-second-label":
+        return [F(1, 5, 1, "CDS", {"label": ["selection marker", L]})]
+    if shape == "after-unlabelled-features":
+        return [F(0, 3, 1, "misc_feature", {}), F(2, 8, -1, "promoter", {"label": [L + " promoter"], "note": ["x"]}), F(4, 9, 1, "CDS", {"label": [L]})]
+    if shape == "two-features-same-label":
+        return [F(1, 5, 1, "CDS", {"label": [L]}), F(0, 9, 1, "misc_feature", {"label": [L]})]
+    if shape == "minus-strand-join":
+        from Bio.SeqFeature import CompoundLocation
+        return [SeqFeature(CompoundLocation([FeatureLocation(6, 9, strand=-1), FeatureLocation(1, 4, strand=-1)]), type="CDS", qualifiers={"label": [L]})]
+    if shape == "label-also-in-note":
+        return [F(1, 5, 1, "CDS", {"label": [L], "note": [L, "AmpR KanR"], "gene": ["bla"]})]
+    if shape == "across-the-origin":
+        from Bio.SeqFeature import CompoundLocation
+        return [SeqFeature(CompoundLocation([FeatureLocation(n - 3, n, strand=1), FeatureLocation(0, 3, strand=1)]), type="CDS", qualifiers={"label": [L]})]
+    if shape == "last-of-many":
+        return [F(i, i + 4, 1, "misc_feature", {"label": ["f%d" % i]}) for i in range(6)] + [F(3, 12, -1, "CDS", {"label": [L]})]
+    raise HarnessError("unknown shape " + shape)
+
+
+def content_text(shape, L, kind):
+    from . import c16
+    from moclo.kits import ytk
+    cls = ytk.YTKPart1 if kind == 0 else ytk.YTKPart3
+    text = c16.kit_instances(cls)[0][0]
+    rec = CircularRecord(Seq(text), id="whatever", name="p", description="plasmid {} {}".format(shape, L),
+                         features=shaped_features(shape, L, len(text)), annotations={"topology": "circular", "molecule_type": "DNA"})
+    buf = io.StringIO()
+    SeqIO.write(rec, buf, "genbank")
+    return buf.getvalue(), text
+
+
+def check_content(st, shape, L, kind, backend, tmpdir):
+    import fs
+    import shutil
+    from fs.memoryfs import MemoryFS
+    from moclo.registry.base import FilesystemRegistry
+    from moclo.kits import ytk
+    scn = dict(family="fs-content", shape=shape, label=L, kind=kind, backend=backend)
+    gb, text = content_text(shape, L, kind)
+    if backend == "mem":
+        f = MemoryFS()
+    else:
+        os.makedirs(tmpdir, exist_ok=True)
+        f = fs.open_fs(tmpdir)
+    try:
+        f.writetext("p.gb", gb)
+        f.writetext("q.gb", genbank_text("q", 0 if kind == 0 else 2))
+        reg = FilesystemRegistry(f, ytk.YTKPart if kind == 0 else ytk.YTKPart3)
+        check_mapping(st, "content", scn, reg, {"p", "q"}, {"p", "q"}, ["zzz", "p.gb"])
+        try:
+            item = reg["p"]
+        except Exception:
+            return           # reported by check_mapping
+        if item.resistance != LABELS[L]:
+            st.violation("content", "resistance-differs-from-the-labelled-one", scn, LABELS[L], item.resistance)
+        if str(item.entity.record.seq).upper() != text.upper():
+            st.violation("content", "record-sequence-differs-from-the-file", scn, text[:40], str(item.entity.record.seq)[:40])
+        exp_cls = ytk.YTKPart1 if kind == 0 else ytk.YTKPart3
+        if type(item.entity) is not exp_cls:
+            st.violation("content", "entity-of-another-type", scn, exp_cls.__name__, type(item.entity).__name__)
+    finally:
+        try:
+            f.close()
+        except Exception:
+            pass
+        if backend == "os":
+            shutil.rmtree(tmpdir, ignore_errors=True)
+
+
+def unit_content(st, kind):
+    base = os.path.join(boot.scratch_dir(), "fsc-{}-{}".format(kind, os.getpid()))
+    i = 0
+    for shape in SHAPES:
+        for L in sorted(LABELS):
+            for backend in ("mem", "os"):
+                i += 1
+                check_content(st, shape, L, kind, backend, base + "-%d" % i)
+                st.scenario("content-" + shape, None, calls=6)
+                st.nontrivial += 1
+                st.goal("fs-content-shapes")
+    st.sample(dict(family="fs-content", shape="label-twice", label="CmR", kind=kind, backend="mem"))
 
 
 def make_registry(backend, entries, extensions, tmpdir, variant=0):
@@ -487,6 +589,8 @@ def replay(scn, sub, st):
         unit_embedded(st, scn["registry"])
     elif fam == "fs-order":
         op_orders(st, scn["entries"], scn["backend"], scn["extensions"], os.path.join(boot.scratch_dir(), "replay-fs-order"))
+    elif fam == "fs-content":
+        check_content(st, scn["shape"], scn["label"], scn["kind"], scn["backend"], os.path.join(boot.scratch_dir(), "replay-fs-content"))
     elif fam == "fs":
         tmp = os.path.join(boot.scratch_dir(), "replay-fs")
         check_dir(st, scn["entries"], scn["backend"], scn["extensions"], tmp)
